@@ -305,6 +305,13 @@ def check(fx, rep, tier):
             )
     rep.floor("R14.5", n_j, 1, "judgements emitted by merge arms")
 
+    # every class reaches the fold: the forest hands out all of its sets (C19 R19.2), and nothing in the unifier can panic on the
+    # way (C01 R01.1 sites inside the unifier and merge)
+    from .. import core as _core
+
+    _core.import_rules(rep, fx, "C19", "R14.1", only_rules=("R19.2",), floor=3, what="forest obligations (C19 R19.2) behind 'every class is folded'")
+    _core.import_rules(rep, fx, "C01", "R14.4", only_rules=("R01.1",), floor=5, what="panic sites inside the unifier (C01 R01.1)", key_filter=lambda k: "tc::unification::" in k)
+
     return rep.finish(
         "Post-condition skeleton of unification: the per-class body stores exactly a singleton set unconditionally, progress is flagged on every fold step and the round loop exits only without progress; "
         "equalities become unions before the rounds and are constructed nowhere else; every diagonal constructor arm of merge emits one equality per type-variable field of the enum definition; "
